@@ -86,6 +86,10 @@ CLAIMS["C06"] = ("exploration",
     "stateful PBT over clocked histories of adds, priority changes (immediate, lazy, extreme values), completions, queued successors and pop mode; every frame's top-to-bottom order is judged by a validity predicate against the effective priorities of a reference frame model",
     "exact only for manual refresh with one client and n<=q (the render clock is owned by the harness); ties and the frame after a lazy change accept any order",
     "model-based stateful property testing (rapid) with an order-validity oracle")
+CLAIMS["C11"] = ("exploration",
+    "stateful PBT over per-bar histories that continue after the terminal event (further updates, aborts, SetTotal, trigger enabling, getters, Bar.Wait, render cycles, cancel/Shutdown) in four refresh regimes; history invariants over every (Completed, Aborted) pair read by the client and shown by the row tags, agreement with the program's first terminal event, exactly-one after Wait, cancel means aborted",
+    "observations ordered per observer; updates after completion are non-decreasing as the statement requires; hangs are left to C01",
+    "model-based stateful property testing (rapid) with history-invariant oracles")
 CLAIMS["C12"] = ("exploration",
     "stateful PBT with recording probes around every decorator: per render cycle and sync column the returned widths must all equal the largest recomputed need over exactly the bars rendered in that cycle; plain decorators return their own need; returned text is the formatted text padded to that width; membership changes (add, remove, drop, pop, successor, cancel) in all three refresh modes",
     "needs are recomputed from W, the extra-space flag and go-runewidth widths of the text each decorator formatted; hangs are left to C01",
